@@ -60,18 +60,33 @@ _B58_IDX = {c: i for i, c in enumerate(_B58)}
 
 def b58encode(b: bytes) -> str:
     n = int.from_bytes(b, "big")
-    s = ""
+    # peel off 58**32 at a time (keeps the number of big-integer divisions low for multi-kB payloads)
+    big = 58 ** 32
+    groups = []
     while n > 0:
-        n, r = divmod(n, 58)
-        s = _B58[r] + s
+        n, r = divmod(n, big)
+        groups.append(r)
+    out = []
+    for gi, g in enumerate(groups):
+        digits = []
+        for _ in range(32):
+            g, r = divmod(g, 58)
+            digits.append(_B58[r])
+        out.append("".join(reversed(digits)))
+    s = "".join(reversed(out)).lstrip("1") if groups else ""
     pad = len(b) - len(b.lstrip(b"\0"))
     return "1" * pad + s
 
 
 def b58decode(s: str) -> bytes:
     n = 0
-    for c in s:
-        n = n * 58 + _B58_IDX[c]  # KeyError -> invalid
+    big = 58 ** 32
+    for i in range(0, len(s), 32):
+        part = s[i:i + 32]
+        v = 0
+        for c in part:
+            v = v * 58 + _B58_IDX[c]  # KeyError -> invalid
+        n = n * (big if len(part) == 32 else 58 ** len(part)) + v
     pad = len(s) - len(s.lstrip("1"))
     body = n.to_bytes((n.bit_length() + 7) // 8, "big") if n else b""
     return b"\0" * pad + body
